@@ -91,7 +91,11 @@ fn run_case(_kind: &str, idx: u64, rng: &mut Rng, mon: &mut Mon, _tier: Tier) {
     let inner_of = |v: &[f64; 6]| crate::props::stack::ref_inner_joints(&layers, v);
     // configurations are compared in the wrapped robot's coordinates: behind a coupling with non-integer scaling a
     // whole turn of the driven joint is not a whole turn of the coupled one, although the posture is the same
-    let same = |a: &[f64; 6], b: &[f64; 6], tol: f64| same_mod(&inner_of(a), &inner_of(b), tol);
+    // ... so exactly at the +-pi seam of a driven joint (where -pi and +pi are the same angle) the comparison falls back
+    // to the wrapped robot's coordinates; everywhere else "modulo 2pi" is taken literally, joint by joint
+    let driven: Vec<usize> = layers.iter().filter_map(|l| if let crate::props::stack::Layer::Para { driven, .. } = l { Some(*driven) } else { None }).collect();
+    let on_seam = |v: &[f64; 6]| driven.iter().any(|d| (v[*d].abs() - PI).abs() < 1e-6);
+    let same = |a: &[f64; 6], b: &[f64; 6], tol: f64| if on_seam(a) || on_seam(b) { same_mod(&inner_of(a), &inner_of(b), tol) } else { same_mod(a, b, tol) };
     let mq = min_measure(&rp, &inner_of(&q));
     mon.count(&format!("robot_class.{}", robot.class));
     if !(mq >= MARGIN) {
